@@ -23,12 +23,15 @@ TRUSTED_BASE = ["coqc 8.16.1 kernel (vm_compute for the schema well-formedness l
                 "Extraction + ExtrOcamlBasic, ocamlfind ocamlopt 4.13.1, coq/driver/main.ml",
                 "harness pdfh (Rust: modes/typed.rs), tools/vplib, tools/oracle/typed.py (equivalences of the property text, ISO 32000-1 date syntax)"]
 ASSUMPTIONS = ["dictionary key order is not observable (IndexMap::swap_remove / HashMap order abstracted; both sides print sorted keys)",
-               "hand-written pairs outside Date/Rectangle/Matrix are a parameter of the generic theorems (premise hand_law); their fields are left out by the generator",
+               "hand-written pairs outside Date/Rectangle/Matrix/Action/NameTree are a parameter of the generic theorems (premise hand_law); Encoding has its own theorem (C15_hand_Encoding); the other pairs are judged by specification oracles of their written form",
                "the proc-macro expansion is modelled (interpreter over the extracted schemas) and tied by correspondence, not verified",
                "i32 -> f32 conversion (`as f32`) is the round-to-nearest-even function Prim.f32_of_i32 (compared bit-exactly on every case)"]
 RULE = ("per derived struct with reader and writer: random well-typed field assignments (present/absent optionals, defaults, "
         "one-or-many, nested models, references to objects, unknown extra keys, shuffled key order), one case per field forced "
-        "present and one forced absent, ill-typed mutants (model comparison only); hand-written Date/Rectangle/Matrix values; "
+        "present and one forced absent, ill-typed mutants (model comparison only); EVERY hand-written Object/ObjectWrite pair "
+        "(Encoding/Differences, BaseEncoding, Rectangle, Matrix, Date, Dest, Action, name and number trees, ColorSpace, "
+        "CidToGidMap, Font variants, stream dictionaries, leaf types and wrappers) with boundary values of each field, judged "
+        "two-sidedly against the written form the standard defines (tools/oracle/typed_hand.py); "
         "judged against the property text (second write identical, every input entry preserved up to the stated equivalences) "
         "and against the extracted Coq interpreter; non-trivial = dictionary with at least one entry; distinct by input line")
 
@@ -419,9 +422,16 @@ def check_written(inp, expected, tags=()):
     return chk
 
 
+_FORM_ONLY = {}      # case key -> the judgement of a `class:stream-direct` case without the directness clause
+
+
 def hand_case(tname, inp, objs, expected, tags, kind):
     model = tname in HAND_MODELLED and not has_stream(objs)
     tags = ["hand:" + tname, "kind:" + kind] + list(tags)
+    if "class:stream-direct" in tags and kind != "malformed":
+        c = Case("typed_roundtrip", fields_line(tname, inp, objs), check=check_written(inp, expected, tags), model=model, tags=tags)
+        _FORM_ONLY[c.key()] = check_written(inp, expected, [t for t in tags if t != "class:stream-direct"])
+        return c
     if kind == "malformed":
         # outside the standard: no specification; the implementation must agree with the model (where there is one),
         # must not panic (always), and a successful round trip must be stable
@@ -517,6 +527,7 @@ def struct_cases(rng, sidx, n_random, tier):
 
 def generate(rng, tier):
     _COV.clear()
+    _FORM_ONLY.clear()
     yield Case("typed_types", [], check=lambda r: None, model=False, tags=["types"])
     n = 40 if tier == "quick" else 700
     for i, s in enumerate(S().structs):
@@ -558,7 +569,10 @@ def nontrivial(c):
 def classify(case, impl, model):
     tags = case.tags
     if "class:stream-direct" in tags and impl and impl[0] == "OK":
-        return "C15-i"
+        # attributed to the open finding only when directness is the ONLY defect: the form itself (string below 100 bytes,
+        # stream from 100 on, data, second write) must be the standard's
+        form = _FORM_ONLY.get(case.key())
+        return "C15-i" if form is not None and form(impl) is None else None
     return None
 
 
@@ -575,6 +589,7 @@ def witness_case(f, c):
         elif f["id"] == "C15-i":
             c.tags.update(["class:stream-direct", "hand:" + name])
             c.check, c.model = check_written(v, v, c.tags), False
+            _FORM_ONLY[c.key()] = check_written(v, v, [t for t in c.tags if t != "class:stream-direct"])
         elif name == "NameTree<Primitive>":
             c.check = check_hand(v, objs)
             c.tags.add("hand:NameTree<Primitive>")
